@@ -53,6 +53,19 @@ EpMember(col, f, vf, ok, pc, sq) ==
       b1 == IF pc = 0 THEN b0 ELSE Place(b0, sq, Pc(1 - col, pc))
   IN [b |-> b1, stm |-> col, cr |-> {}, ep |-> tgt]
 
+\* --- en passant with TWO capturers flanking the pawn that just double-stepped (victim file vf, capturers vf-1 and vf+1):
+\* one capture may be illegal (pin on a file / diagonal / the rank) while the other is legal ---
+Ep2Member(col, vf, ok, pc, sq) ==
+  LET r == EpRank(col)
+      capA == Sq(vf - 1, r)
+      capB == Sq(vf + 1, r)
+      vic == Sq(vf, r)
+      tgt == IF col = 0 THEN vic + 8 ELSE vic - 8
+      ek == IF col = 0 THEN (IF 64 \in {ok, capA, capB, vic} THEN 57 ELSE 64) ELSE (IF 1 \in {ok, capA, capB, vic} THEN 8 ELSE 1)
+      b0 == Place(Place(Place(Place(Place(Empty, capA, Pc(col, P)), capB, Pc(col, P)), vic, Pc(1 - col, P)), ok, Pc(col, K)), ek, Pc(1 - col, K))
+      b1 == IF pc = 0 THEN b0 ELSE Place(b0, sq, Pc(1 - col, pc))
+  IN [b |-> b1, stm |-> col, cr |-> {}, ep |-> tgt]
+
 \* --- promotion: pawn on its seventh rank, enemy men on the two capture squares / in front, own king anywhere ---
 PromoMember(col, f, ok, pc, sq) ==
   LET r == IF col = 0 THEN 7 ELSE 2
@@ -77,6 +90,7 @@ Level1 ==
        [] Family \in {"mating", "avoid"} -> k' \in {s \in 1..64 : File(s) \in {1, 8} \/ Rank(s) \in {1, 8}}   \* the bare king, on the edge
        [] Family = "ep" -> k' \in 1..8           \* file of the capturing pawn
        [] Family = "promo" -> k' \in 1..8        \* file of the pawn
+       [] Family = "ep2" -> k' \in 2..7          \* file of the pawn that double-stepped
        [] OTHER -> k' = 0
 
 \* sampling hash: the division terms break the arithmetic regularity of idx (every residue class is populated);
@@ -122,6 +136,17 @@ Level2 ==
               /\ (pc # 0 => sq \notin {cap, vic, tgt, org, ok} /\ sq \notin {1, 8, 57, 64})
               /\ pos' = EpMember(c, k, vf, ok, pc, sq)
               /\ idx' = vf + 8 * ok + 512 * pc + 4096 * sq
+       [] Family = "ep2" ->
+            \E ok \in 1..64 : \E pc \in {0, Q, R, B} : \E sq \in 1..64 :
+              LET r == EpRank(c)  capA == Sq(k - 1, r)  capB == Sq(k + 1, r)  vic == Sq(k, r)  tgt == IF c = 0 THEN vic + 8 ELSE vic - 8
+                  org == IF c = 0 THEN vic + 16 ELSE vic - 16 IN
+              /\ ok \notin {capA, capB, vic, tgt, org}
+              /\ (Rank(ok) = r \/ \E d \in 5..8 : \E j \in 1..Len(Ray[ok][d]) : Ray[ok][d][j] \in {capA, capB, vic, tgt}
+                  \/ File(ok) \in {k - 1, k, k + 1})
+              /\ (pc = 0 => sq = 1)
+              /\ (pc # 0 => sq \notin {capA, capB, vic, tgt, org, ok} /\ sq \notin {1, 8, 57, 64})
+              /\ pos' = Ep2Member(c, k, ok, pc, sq)
+              /\ idx' = 8 * ok + 512 * pc + 4096 * sq
        [] Family = "promo" ->
             \E ok \in 1..64 : \E pc \in {0, Q, R, B, N} : \E sq \in 1..64 :
               LET r == IF c = 0 THEN 7 ELSE 2  lr == IF c = 0 THEN 8 ELSE 1  pw == Sq(k, r) IN
